@@ -4,10 +4,10 @@ package main
 // imports of one property's obligations into another that depends on them, and four new rules.
 
 import (
-	"sort"
 	"fmt"
 	"go/token"
 	"go/types"
+	"sort"
 
 	"golang.org/x/tools/go/ssa"
 )
